@@ -12,7 +12,7 @@ PROPS_FILE = 'theories/Props/C06.v'
 PROPS_MODULE = 'Props.C06'
 COQ_TARGETS = ['theories/Extract/ExtractC06.vo']
 REQUIRED_THEOREMS = ['C06_total', 'C06_budget', 'C06_limit_error', 'C06_cycle_error', 'C06_operands_total',
-                     'C06_exact_parser_in_range', 'C06_calls_bounded', 'C06_bounded_partial']
+                     'C06_exact_parser_in_range', 'C06_calls_bounded', 'C06_bounded_partial', 'C06_bounded_bytes_partial']
 MODEL = 'resolver'
 HARNESS_BINS = ['bundle_run', 'syn_run']
 RELEASE_TOO = True
@@ -36,8 +36,9 @@ ASSUMPTIONS = [
     'PluralOperands::try_from(f64).expect(..) is reachable in the exact-decimal model, not in Rust',
     'C06_bounded_partial / C06_calls_bounded: see PARTIAL',
 ]
-PARTIAL = ('C06_bounded is proved as C06_bounded_partial: the number of tokens written is bounded ((MAX_PLACEABLES+1) x widest pattern), not their '
-           'byte length: a byte bound needs a bound on every value that can be printed, and NUMBER(1, minimumFractionDigits: 99999999999) makes '
+PARTIAL = ('C06_bounded is proved as C06_bounded_partial: the number of tokens written is bounded ((MAX_PLACEABLES+1) x widest pattern), and as '
+           'C06_bounded_bytes_partial: bytes <= W x that number when every written piece has <= W bytes (hypothesis on the pieces, not yet derived '
+           'from bounds on the inputs); a full input-side byte bound is not proved: a byte bound needs a bound on every value that can be printed, and NUMBER(1, minimumFractionDigits: 99999999999) makes '
            'FluentNumber::as_string ask for ~10^11 bytes (known real-code finding D11, never generated here). The exact-decimal float parser used '
            'by the extracted model meets values_are_f64 for literals of at most 19 bytes (C06_exact_parser_in_range), not for all strings.')
 RULE = ('designed generators: placeable limit forced to trip at every syntactic position (select variant, nested placeable, call argument, term '
